@@ -19,3 +19,59 @@ package bitswap
 //@   ensures old(sb.Container.Proof) != nil ==> sb.Container == old(sb.Container)
 //@   ensures err == nil && old(sb.Container.Proof) == nil ==> len(idData) == shwap.SampleIDSize && u64be(idData, 0) == sb.ID.RowID.EdsID.height && u16be(idData, 8) == sb.ID.RowID.RowIndex && u16be(idData, 10) == sb.ID.ShareIndex
 //@   ensures err == nil && old(sb.Container.Proof) == nil ==> sb.Container.Proof != nil && nmtIncl1(deref(sb.Container.Proof), ((sb.ID.ShareIndex >= len(root.RowRoots)/2 || sb.ID.RowID.RowIndex >= len(root.RowRoots)/2) ? libshare.ParitySharesNamespace.data : sb.Container.Share.data[0:29]), sb.Container.Share.data, (sb.Container.ProofType == 0 ? root.RowRoots[uint(sb.ID.RowID.RowIndex)] : root.ColumnRoots[uint(sb.ID.ShareIndex)]))
+
+//@ func (*RowBlock).UnmarshalFn$1
+//@   property C10
+//@   requires rb != nil && 0 <= rb.ID.RowIndex && rb.ID.RowIndex < len(root.RowRoots)
+//@   modifies rb
+//@   ensures rb.ID == old(rb.ID)
+//@   ensures err != nil ==> rb.Container == old(rb.Container)
+//@   ensures len(old(rb.Container.shares)) != 0 ==> rb.Container == old(rb.Container)
+//@   ensures err == nil && len(old(rb.Container.shares)) == 0 ==> len(idData) == shwap.RowIDSize && u64be(idData, 0) == rb.ID.EdsID.height && u16be(idData, 8) == rb.ID.RowIndex
+//@   ensures err == nil && len(old(rb.Container.shares)) == 0 ==> len(rb.Container.shares) != 0 && rowBoundTo(rb.Container, root.RowRoots[rb.ID.RowIndex], rb.ID.RowIndex)
+
+//@ func (*RowNamespaceDataBlock).UnmarshalFn$1
+//@   property C10
+//@   requires rndb != nil
+//@   modifies rndb
+//@   ensures rndb.ID == old(rndb.ID)
+//@   ensures err != nil ==> rndb.Container == old(rndb.Container)
+//@   ensures old(rndb.Container.Proof) != nil ==> rndb.Container == old(rndb.Container)
+//@   ensures err == nil && old(rndb.Container.Proof) == nil ==> len(idData) == shwap.RowNamespaceDataIDSize && u64be(idData, 0) == rndb.ID.RowID.EdsID.height && u16be(idData, 8) == rndb.ID.RowID.RowIndex && bytesEq(idData[10:], rndb.ID.DataNamespace.data)
+//@   ensures err == nil && old(rndb.Container.Proof) == nil ==> rndb.Container.Proof != nil && !outsideOf(rndb.ID.DataNamespace, root.RowRoots[rndb.ID.RowID.RowIndex]) && nmtNsVerified(deref(rndb.Container.Proof), rndb.ID.DataNamespace.data, rndb.Container.Shares, root.RowRoots[rndb.ID.RowID.RowIndex])
+
+// The multihash "hasher" through which every Bitswap block passes. $Verified: the verifier that the
+// pending request registered accepted (container, identifier). The digest - which Bitswap compares
+// with the requested CID - is set only then, to the identifier extracted from the block's own CID;
+// every other outcome is an error and leaves the digest as it was.
+//@ func (*hasher).write
+//@   property C10
+//@   requires h != nil && !$Verified
+//@   modifies h
+//@   param .UnmarshalFn: ensures $result == nil ==> $Verified
+//@   param .UnmarshalFn: ensures $result != nil ==> !$Verified
+//@   ensures err == nil ==> $Verified
+//@   ensures err != nil ==> h.sum == old(h.sum)
+//@   checks err == nil ==> h.sum == id
+
+//@ func (*hasher).Write
+//@   property C10
+//@   requires h != nil && !$Verified
+//@   modifies h
+//@   ensures err == nil ==> $Verified && result0 == len(data)
+//@   ensures err != nil ==> result0 == 0 && h.sum == old(h.sum)
+
+//@ pure func rangeEmpty(c shwap.RangeNamespaceData) bool = c.Shares == nil && c.FirstIncompleteRowProof == nil && c.LastIncompleteRowProof == nil
+
+//@ func (*RangeNamespaceDataBlock).UnmarshalFn$1
+//@   property C10
+//@   requires rndb != nil && root != nil
+//@   modifies rndb
+//@   ensures rndb.ID == old(rndb.ID)
+//@   ensures err != nil ==> rndb.Container == old(rndb.Container)
+//@   ensures !old(rangeEmpty(rndb.Container)) ==> rndb.Container == old(rndb.Container)
+//@   ensures err == nil && old(rangeEmpty(rndb.Container)) ==> len(idData) == shwap.RangeNamespaceDataIDV0Size && u64be(idData, 0) == rndb.ID.RangeNamespaceDataID.EdsID.height && u16be(idData, 8) == rndb.ID.RangeNamespaceDataID.From && u16be(idData, 10) == rndb.ID.RangeNamespaceDataID.To
+//@   ensures err == nil && old(rangeEmpty(rndb.Container)) ==> 0 <= rndb.ID.RangeNamespaceDataID.From && rndb.ID.RangeNamespaceDataID.From < rndb.ID.RangeNamespaceDataID.To
+//@   ensures err == nil && old(rangeEmpty(rndb.Container)) ==> rndb.ID.RangeNamespaceDataID.To <= (len(old(root.RowRoots))/2) * (len(old(root.RowRoots))/2)
+//@   ensures root.RowRoots == old(root.RowRoots)
+//@   checks err == nil && old(rangeEmpty(rndb.Container)) ==> len(rndb.Container.Shares) == to.Row - from.Row + 1 && from.Row * odsSize + from.Col == rndb.ID.RangeNamespaceDataID.From && to.Row * odsSize + to.Col == rndb.ID.RangeNamespaceDataID.To - 1
